@@ -103,7 +103,104 @@ def rule_r4(repo):
     return res
 
 
+def rule_r5(repo):
+    """When an evaluator keeps only a suffix `E[k:]` of a list taken from the goal or a premise, the
+    components it cuts off must be examined somewhere (E[0], E[:k], or E as a whole); otherwise they can
+    be anything."""
+    res = RuleResult('C18.R5', 'components cut off from a goal-derived list by a suffix slice are examined elsewhere in the evaluator', floor=8)
+    for mi in macro_index(repo):
+        if mi.eval is None or not mr.verit_macros(mi):
+            continue
+        f = mi.eval
+        flow = flow_of(f.node)
+        params = f.params()[1:3]
+        parent = {}
+        for n in ast.walk(f.node):
+            for ch in ast.iter_child_nodes(n):
+                parent[id(ch)] = n
+        for x in ast.walk(f.node):
+            if not (isinstance(x, ast.Subscript) and isinstance(x.slice, ast.Slice) and x.slice.upper is None and x.slice.step is None and
+                    isinstance(x.slice.lower, ast.Constant) and isinstance(x.slice.lower.value, int) and x.slice.lower.value >= 1):
+                continue
+            if not any(path_base(p) in params for p in flow.resolve(x.value)):
+                continue
+            k = x.slice.lower.value
+            base = src(x.value, 300)
+            # the same list under other names: `conjs = rhs.strip_conj()`
+            aliases = {base}
+            if isinstance(x.value, ast.Name):
+                aliases |= {src(r, 300) for kd, r in flow.defs.get(x.value.id, []) if kd == 'value'}
+            for nm, defs in flow.defs.items():
+                if any(kd == 'value' and src(r, 300) in aliases for kd, r in defs):
+                    aliases.add(nm)
+            examined = False
+            for y in ast.walk(f.node):
+                if not isinstance(y, (ast.Name, ast.Attribute, ast.Call, ast.Subscript)) or src(y, 300) not in aliases:
+                    continue
+                if isinstance(y, ast.Name) and isinstance(y.ctx, ast.Store):
+                    continue
+                par = parent.get(id(y))
+                if isinstance(par, ast.Subscript) and par.value is y:
+                    sl = par.slice
+                    suffix = isinstance(sl, ast.Slice) and sl.upper is None and isinstance(sl.lower, ast.Constant) and \
+                        isinstance(sl.lower.value, int) and sl.lower.value >= k
+                    if not suffix:
+                        examined = True       # an index or a prefix slice
+                    continue
+                if isinstance(par, ast.Assign) and par.value is y:
+                    continue                  # the definition of an alias
+                if isinstance(par, ast.Call) and isinstance(par.func, ast.Name) and par.func.id == 'len':
+                    continue                  # only its length
+                examined = True               # the whole list is used
+            res.add('%s :: eval :: suffix(%s[%d:])' % (mi.key, src(x.value, 40), k), examined,
+                    'the first %d component(s) are read elsewhere' % k if examined else
+                    'only `%s` is used; the first %d component(s) of that list are never looked at, so the step is accepted whatever they are' % (
+                        src(x, 50), k), '%s:%d' % (f.module.rel, x.lineno))
+    return res
+
+
+def rule_r6(repo):
+    """What an evaluator collects from its premises must be consulted: a container that only ever
+    receives values (add / append / subscript store) and is never read means the premises it was filled
+    from play no part in the decision."""
+    res = RuleResult('C18.R6', 'a container an evaluator fills from its premises or arguments is consulted before the step is accepted', floor=10)
+    MUT = {'add', 'append', 'extend', 'update', 'insert'}
+    for mi in macro_index(repo):
+        if mi.eval is None or not mr.verit_macros(mi):
+            continue
+        f = mi.eval
+        flow = flow_of(f.node)
+        params = f.params()[1:3]
+        recv_ids = set()
+        filled = {}
+        for c in ast.walk(f.node):
+            if isinstance(c, ast.Call) and isinstance(c.func, ast.Attribute) and c.func.attr in MUT and isinstance(c.func.value, ast.Name):
+                recv_ids.add(id(c.func.value))
+                filled.setdefault(c.func.value.id, []).extend(c.args)
+            if isinstance(c, ast.Assign):
+                for t in c.targets:
+                    if isinstance(t, ast.Subscript) and isinstance(t.value, ast.Name):
+                        recv_ids.add(id(t.value))
+                        filled.setdefault(t.value.id, []).append(c.value)
+        reads = {}
+        for n in ast.walk(f.node):
+            if isinstance(n, ast.Name) and isinstance(n.ctx, ast.Load) and id(n) not in recv_ids:
+                reads[n.id] = reads.get(n.id, 0) + 1
+        for name, vals in sorted(filled.items()):
+            if name in f.params() or not flow.is_local(name):
+                continue
+            from_input = any(path_base(p) in params for v in vals for p in flow.resolve(v))
+            if not from_input:
+                continue
+            ok = reads.get(name, 0) > 0
+            res.add('%s :: eval :: container(%s)' % (mi.key, name), ok,
+                    'read %d time(s)' % reads.get(name, 0) if ok else
+                    '`%s` is filled from the premises / arguments and never read: what was collected does not influence acceptance' % name,
+                    f.loc)
+    return res
+
+
 def rules(repo):
     r1 = mr.zip_rule(repo, 'C18.R1', mr.verit_eval_side_functions(repo), floor=9)
     r2 = mr.hyps_rule(repo, 'C18.R2', mr.verit_macros, floor=80)
-    return [r1, r2, rule_r3(repo), rule_r4(repo)]
+    return [r1, r2, rule_r3(repo), rule_r4(repo), rule_r5(repo), rule_r6(repo)]
